@@ -450,8 +450,11 @@ func buildNotaryRequest(t *tape) *payload.P2PNotaryRequest {
 	return &payload.P2PNotaryRequest{MainTransaction: main, FallbackTransaction: fb, Witness: buildWitness(t)}
 }
 
-func buildMerkleBlock(t *tape) *payload.MerkleBlock {
-	h := buildHeader(t, false)
+func buildMerkleBlock(t *tape) *payload.MerkleBlock { return buildMerkleBlockSR(t, false) }
+
+// buildMerkleBlockSR: the header is the header of the network the message travels in (StateRootInHeader or not).
+func buildMerkleBlockSR(t *tape, sr bool) *payload.MerkleBlock {
+	h := buildHeader(t, sr)
 	hashes := buildHashes(t, 300)
 	fl := t.fill((len(hashes) + 7) / 8)
 	if t.bool() {
